@@ -314,8 +314,153 @@ def bare_relative_names(ctx, tmp):
         os.chdir(start)
 
 
+def layouts(ctx, model, tmp, count):
+    """the frame of the written file against Model/NetCdf.ncLayout (Props/C18Layout.lean): templates with 1-3 dimensions whose coordinate variables are of
+    several element types, carry text / numeric / list attributes and - as most tools write them - a _FillValue, or are absent; other variables before and
+    after the template field; CRS information (an esri_pe_string on the first or a later variable, a grid_mapping naming a variable that exists, with its own
+    dimension or one of the field's, or one that does not exist); 1-3 results.  Compared: dimensions with sizes in order, variables in order with element
+    type, dimensions, attributes and - for coordinate variables - values; or the error class.  Oracle: coordinate variables and values copied unchanged."""
+    from netCDF4 import Dataset
+    from mpilot.libraries.eems.netcdf.io import EEMSWrite
+    rng = ctx.rng
+
+    class Held(object):
+        def __init__(self, name, arr):
+            self.result_name = name
+            self.result = arr
+
+    def tok(v):
+        if isinstance(v, numpy.ndarray):
+            return "[" + ",".join(tok(x) for x in v.tolist()) + "]"
+        if isinstance(v, float) and v != v:
+            return "nan"
+        if isinstance(v, str):
+            return v                    # text as it is: the tool looks up the variable a grid_mapping attribute names
+        return repr(v.item() if hasattr(v, "item") else v)
+
+    def describe(path):
+        with Dataset(path) as ds:
+            dims = [(d, len(ds.dimensions[d])) for d in ds.dimensions]
+            vs = []
+            for n, v in ds.variables.items():
+                data = [("--" if x is numpy.ma.masked or x is None else tok(x)) for x in numpy.ma.asarray(v[:]).ravel().tolist()] if v.ndim == 1 and n in ds.dimensions else []
+                vs.append((n, v.dtype.str, list(v.dimensions), [(k, tok(v.getncattr(k))) for k in v.ncattrs()], data))
+        return dims, vs
+
+    def enc(dims, vs, field, names):
+        out = ["nclayout", enc_str(field), str(len(names))] + [enc_str(n) for n in names] + [str(len(dims))]
+        for d, k in dims:
+            out += [enc_str(d), str(k)]
+        out.append(str(len(vs)))
+        for n, dt, ds_, attrs, data in vs:
+            out += [enc_str(n), enc_str(dt), str(len(ds_))] + [enc_str(x) for x in ds_] + [str(len(attrs))]
+            for k, v in attrs:
+                out += [enc_str(k), enc_str(v)]
+            out += [str(len(data))] + [enc_str(x) for x in data]
+        return " ".join(out)
+
+    def canon(dims, vs, names):
+        # attribute order is the library's business (the tool sets them in sorted order); a result variable's element type and fill value belong to the data part
+        return (dims, [(n, "" if n in names else dt, ds_, sorted((k, v) for k, v in attrs if not (n in names and k == "_FillValue")), data) for n, dt, ds_, attrs, data in vs])
+
+    lines, metas = [], []
+    for i in range(count):
+        rank = rng.choice([1, 2, 2, 3])
+        dnames = rng.sample(["y", "x", "t", "lat", "lon", "level"], rank)
+        sizes = [rng.choice([1, 2, 3, 5]) for _ in dnames]
+        tpath = os.path.join(tmp, "lt%d.nc" % (i % 6))
+        opath = os.path.join(tmp, "lo%d.nc" % (i % 6))
+        missing_coord = rng.random() < 0.08
+        dup_dim = rank >= 2 and rng.random() < 0.04
+        crs_kind = rng.choice(["none", "none", "esri", "esri+gm", "esri+gm-own-dim", "esri+gm-missing", "gm-only"])
+        with Dataset(tpath, "w") as ds:
+            for d, k in zip(dnames, sizes):
+                ds.createDimension(d, k)
+            if crs_kind == "esri+gm-own-dim":
+                ds.createDimension("nchar", 4)
+            def coord(d, k):
+                kind = rng.choice(["f8", "f4", "i4", "i2"])
+                fill = rng.choice([None, None, "nan", -999]) if kind.startswith("f") else rng.choice([None, None, -999])
+                v = ds.createVariable(d, kind, (d,), fill_value=(numpy.nan if fill == "nan" else fill))
+                vals = [10 * (j + 1) + (0.25 if kind.startswith("f") else 0) for j in range(k)]
+                if fill is not None and k > 1 and rng.random() < 0.3:
+                    vals = numpy.ma.array(vals, mask=[j == 1 for j in range(k)])        # a coordinate with a missing entry
+                v[:] = vals
+                for a in rng.sample(["units", "long_name", "axis", "zeta", "standard_name"], rng.randrange(0, 4)):
+                    v.setncattr(a, rng.choice(["m", "degrees_north", "X", "time since 1970", "é"]))
+                if rng.random() < 0.3:
+                    v.setncattr("valid_min", rng.choice([0.5, 1, -3]))
+                if rng.random() < 0.2:
+                    v.setncattr("bounds_hint", numpy.array([0.5, 2.5]))
+            if rng.random() < 0.5:
+                o = ds.createVariable("other", "f8", (dnames[0],))          # a variable before the field in file order
+                if crs_kind in ("esri", "esri+gm") and rng.random() < 0.5:
+                    o.esri_pe_string = "PE-other"
+            for j, (d, k) in enumerate(zip(dnames, sizes)):
+                if missing_coord and j == len(dnames) - 1:
+                    continue
+                coord(d, k)
+            if crs_kind in ("esri+gm", "esri+gm-own-dim", "gm-only"):
+                g = ds.createVariable("crs", "i4", ("nchar",) if crs_kind == "esri+gm-own-dim" else ((dnames[0],) if rng.random() < 0.5 else ()),
+                                      fill_value=rng.choice([None, -9]))
+                g.grid_mapping_name = "latitude_longitude"
+                g.semi_major_axis = 6378137.0
+            fdims = tuple(dnames) if not dup_dim else (dnames[0], dnames[0])
+            e = ds.createVariable("elev", "f8", fdims)
+            if crs_kind.startswith("esri"):
+                e.esri_pe_string = 'GEOGCS["GCS_WGS_1984"]'
+            if crs_kind in ("esri+gm", "esri+gm-own-dim", "gm-only"):
+                e.grid_mapping = "crs"
+            if crs_kind == "esri+gm-missing":
+                e.grid_mapping = "nowhere"
+        field = "elev" if rng.random() < 0.95 else "nosuch"
+        names = rng.sample(["R", "Out2", "fuzzy é", "z"], rng.choice([1, 1, 2, 3]))
+        shape = tuple(sizes) if not dup_dim else (sizes[0], sizes[0])
+        arrs = [numpy.ma.array(numpy.arange(int(numpy.prod(shape)), dtype=float).reshape(shape) + j, mask=numpy.zeros(shape, dtype=bool)) for j in range(len(names))]
+        tdims, tvars = describe(tpath)
+        try:
+            EEMSWrite.__new__(EEMSWrite).execute(OutFileName=opath, OutFieldNames=[Held(n, a) for n, a in zip(names, arrs)], DimensionFileName=tpath, DimensionFieldName=field)
+            odims, ovars = describe(opath)
+            real = ("ok", canon(odims, ovars, names))
+        except Exception as ex:      # noqa
+            real = ("err", type(ex).__name__)
+        desc = {"template": {"dimensions": tdims, "variables": [(n, dt, d_, a) for n, dt, d_, a, _ in tvars]}, "field": field, "results": names}
+        ctx.case("layout %r %r %r" % (tdims, [(v[0], v[2], v[3]) for v in tvars], names), sample={"dims": tdims, "crs": crs_kind, "outcome": real[0] if real[0] == "ok" else real[1]})
+        ctx.count("layout:%s:%s" % (crs_kind, real[0] if real[0] == "ok" else real[1]))
+        ctx.count("layout_coordinate_with_fill_value", sum(1 for n, dt, d_, a, _ in tvars if n in dnames and any(k == "_FillValue" for k, _ in a)))
+        lines.append(enc(tdims, tvars, field, names))
+        metas.append((desc, real, names, tdims, tvars))
+        if real[0] == "ok":
+            # the property itself: the template's dimension variables and coordinate values are in the output, unchanged
+            o = {n: (dt, d_, dict(a), data) for n, dt, d_, a, data in real[1][1]}
+            for n, dt, d_, a, data in tvars:
+                if n in (dnames if not dup_dim else dnames[:1]) and field == "elev":
+                    if n not in o:
+                        ctx.fail("NetCDF EEMSWrite: the coordinate variable %r of the template is not in the written file" % n, desc)
+                    elif o[n][3] != data or o[n][0] != dt or o[n][2] != dict(a):
+                        ctx.fail("NetCDF EEMSWrite: coordinate variable %r was not copied unchanged: template %r %r %r, written %r %r %r" % (n, dt, dict(a), data, o[n][0], o[n][2], o[n][3]), desc)
+    for (desc, real, names, tdims, tvars), ans in zip(metas, model.ask(lines)):
+        if ans.startswith("err "):
+            got = ("err", ans[4:])
+        elif ans.startswith("ok "):
+            parts = ans[3:].split(" ")
+            mdims = [(common.dec_str(x.split("=")[0]), int(x.split("=")[1])) for x in parts[0].split(",") if x]
+            mvars = []
+            for vt in parts[1:]:
+                n, dt, ds_, attrs, data = vt.split(":")
+                mvars.append((common.dec_str(n), common.dec_str(dt), [common.dec_str(x) for x in ds_.split(",") if x],
+                              [(common.dec_str(x.split("=")[0]), common.dec_str(x.split("=")[1])) for x in attrs.split(",") if x], [common.dec_str(x) for x in data.split(",") if x]))
+            got = ("ok", canon(mdims, mvars, names))
+        else:
+            got = ("bad", ans[:80])
+        if got != real:
+            ctx.disagree("netcdf:layout", desc, repr(real)[:1500], repr(got)[:1500])
+            if real[0] == "err" and got[0] == "ok":
+                ctx.fail("NetCDF EEMSWrite fails with %s on a template the writer's frame is defined for (nothing is written)" % real[1], desc)
+
+
 def run(ctx):
-    ctx.check_proofs(["MPilot.Props.C18"])
+    ctx.check_proofs(["MPilot.Props.C18", "MPilot.Props.C18Layout"])
     model = common.Model()
     rng = ctx.rng
     tmp = common.tmpdir("mpv_c18_")
@@ -557,6 +702,7 @@ def run(ctx):
                 ctx.disagree("ncwrite", desc, repr(v)[:200], part[:200] + " :: " + d)
                 break
     programs(ctx, tmp)
+    layouts(ctx, model, tmp, ctx.budget(40, 1500))
     grid_ladder(ctx, tmp)
     bare_relative_names(ctx, tmp)
     return ctx.finish(
